@@ -38,6 +38,8 @@ def prop_of(prov, item):
     if prov in ("opened-merged", "open-merged"):
         return MERGED_ERR.get(item[1], "C05") if asp == "err" else MERGED.get(asp, "C05")
     if prov in ("merge", "merge-zero"):
+        if asp == "merge-error":
+            return "*"   # a merge of valid inputs that fails violates whichever merge property is being checked
         return "C05"
     if prov == "layout":
         return "C09"
@@ -95,7 +97,7 @@ def plan_for(pid, tier):
     if pid == "C09":
         common.update(layout=True, maxtlc=2000 if q else 30000, life_cfg="LifeSynQ.cfg" if q else "LifeSyn.cfg", walks=120 if q else 3000)
     P["C14"] = [("vec", 24 if q else 250, 5)]
-    P["C15"] = [("vec", 30 if q else 300, 10)]
+    P["C15"] = [("vec", 30 if q else 300, 10), ("vecstress", 2 if q else 12, 3, "race")]
     if pid in ("C14", "C15"):
         common["life_cfg"] = "LifeVecQ.cfg" if q else "LifeVec.cfg"
         common["tags"] = ("verif", "vectors")
@@ -202,7 +204,7 @@ def validate(sc, trace, name, timeout=3000):
     (not decodable from the documented layout): it is recorded as a layout mismatch of that event, the
     file is taken out of the trace and the validation is repeated, so that the rest is still checked."""
     extra = []
-    for attempt in range(6):
+    for attempt in range(16):
         outp, st = tlc(sc, "TraceLife", cfg="TraceLife.cfg", env={"TRACE": trace, "LAYOUT": LAYOUT["on"], "LEAFDEC": LAYOUT["leafdec"]},
                        workers=1, timeout=timeout, outname=name)
         mism, accepted, rej = [], None, None
@@ -214,7 +216,7 @@ def validate(sc, trace, name, timeout=3000):
             else:
                 rej = payload
         errs = tlc_errors(outp)
-        if accepted is None and rej is None and LAYOUT["on"] == "1" and attempt < 5:
+        if accepted is None and rej is None and LAYOUT["on"] == "1" and attempt < 15:
             txt = open(outp, errors="replace").read()
             k = txt.find("TLC threw an unexpected exception")
             at = re.findall(r"^/\\ l = (\d+)$", txt[k:], re.M) if k >= 0 else []
